@@ -269,9 +269,10 @@ IsTyped(reg, k) == KindOf(k) = "s" /\ k \in DOMAIN reg /\ reg[k].s # "plain"
 
 (* each registered setting equals the value given in that file, or its registered default *)
 ValuesOK(reg, file, post) ==
-  \A k \in DOMAIN reg :
+  LET want == MergeDecl(reg, file)
+  IN \A k \in DOMAIN reg :
      /\ k \in DOMAIN post
-     /\ post[k].v = MergeDecl(reg, file)[k]
+     /\ post[k].v = want[k]
      /\ (IsTyped(reg, k) /\ ParseOk(reg[k].s, post[k].v[1])) => post[k].z = ParseVal(reg[k].s, post[k].v[1])
 
 (* unregistered leftovers of earlier files are gone *)
